@@ -205,6 +205,7 @@ class Opaque(V):
     cls: str
     taint: frozenset = frozenset()
     text: str = ""
+    payload: "V | None" = None  # what a Config / FileFilter was built from (the pattern tuple)
 
 
 _loop_serial = itertools.count(1)
@@ -308,6 +309,7 @@ class DictV(V):
     text: str
     taint: frozenset = frozenset()
     stores: list = field(default_factory=list)  # (key of the key value, stored value): memo tables `if k not in d: d[k] = f(k)`
+    entries: list = field(default_factory=list)  # (key value, value) of a literal: dispatch tables
 
 
 @dataclass(eq=False)
@@ -513,6 +515,7 @@ class Interp:
         self.visited: set[str] = set()
         self._module_frames: dict[str, Frame] = {}
         self._class_attrs: dict[tuple[str, str], V] = {}
+        self.int_def: "Formula | None" = None  # what INT[x0] means in terms of other atoms about x0 (set by the rules)
         self._run_conds: list[Formula] = []  # conditions attached to the element of the current run (filtering dict comprehension)
 
     # ------------------------------------------------------------------ helpers
@@ -545,6 +548,8 @@ class Interp:
 
     def transparent_func(self, fi: FuncInfo) -> bool:
         if fi.cls is not None:
+            if (fi.is_classmethod or fi.is_staticmethod) and fi.cls.name in ("FileFilter", "Config"):
+                return True
             return self.transparent_class(fi.cls)
         m = fi.module.name
         if m.startswith(SCAN_PKG) and m.rsplit(".", 1)[-1] in VOCABULARY_MODULES:
@@ -562,6 +567,21 @@ class Interp:
             else:
                 args.append(Unknown(p))
         self.call_function(self.entry, args, {}, None, None)
+
+    def formula_of_predicate(self, fi: FuncInfo) -> "Formula | None":
+        """Truth of `fi(<generic name x0>, <some prefix>)` with the body interpreted (also for the named internal test)."""
+        lp = Loop("x0", Coll([Part("base", TRUE, base="src:names")]), None, fi)
+        saved_loops, saved_int, saved_frames = self.loops, self.internal_fns, self.frames
+        self.loops, self.internal_fns, self.frames = [lp], set(), []
+        try:
+            args = [Elem("x0", lp), *[Unknown(p, maybe_none=False) for p in fi.param_names[1:]]]
+            res = self.call_function(fi, args[: len(fi.param_names)], {}, None, None)
+            return self.truth(res)
+        except Exception:  # noqa: BLE001 - no definition then
+            return None
+        finally:
+            lp.active = False
+            self.loops, self.internal_fns, self.frames = saved_loops, saved_int, saved_frames
 
     # ------------------------------------------------------------------ calls
     def call_function(self, fi: FuncInfo, args: list, kwargs: dict, selfv: "V | None", closure: "dict | None", call: "ast.Call | None" = None, caller: "Frame | None" = None) -> V:
@@ -1363,7 +1383,9 @@ class Interp:
                     recv.fields[target.attr] = v
                 else:
                     g = self.guard()
-                    recv.fields[target.attr] = AltV([(g, v), (f_not(g), old if old is not None else Unknown(f"<{recv.cls.name}.{target.attr} unset>"))]) if not isinstance(old, AltV) else AltV([(g, v), *[(conj([f_not(g), h]), x) for h, x in old.alts]])
+                    unset = Unknown(f"<{recv.cls.name}.{target.attr} unset>")
+                    unset._unset = True  # type: ignore[attr-defined]
+                    recv.fields[target.attr] = AltV([(g, v), (f_not(g), old if old is not None else unset)]) if not isinstance(old, AltV) else AltV([(g, v), *[(conj([f_not(g), h]), x) for h, x in old.alts]])
             else:
                 self.note(f"{fr.fi.qualname}: attribute store on {key(recv)} not modelled")
         elif isinstance(target, ast.Subscript):
@@ -1619,6 +1641,22 @@ class Interp:
                     return atom("HAS")
         return TRUE
 
+    def patterns_empty(self, v: V) -> Formula:
+        """Condition under which the value a pattern filter is built from holds no pattern at all."""
+        if isinstance(v, NoneV):
+            return TRUE
+        if isinstance(v, Const):
+            return FALSE if v.value else TRUE
+        if isinstance(v, TupleV):
+            return FALSE if v.items else TRUE
+        if isinstance(v, Coll) and not v.parts:
+            return TRUE
+        if isinstance(v, AltV):
+            return disj(conj([g, self.patterns_empty(x)]) for g, x in v.alts)
+        if isinstance(v, Unknown) and v.patterns:
+            return f_not(atom("HAS"))
+        return FALSE if isinstance(v, (Coll, Obj, Opaque)) else self.free(f"EMPTY[{key(v)}]", taint_of(v))
+
     def isnone(self, v: V) -> Formula:
         if isinstance(v, NoneV):
             return TRUE
@@ -1670,6 +1708,13 @@ class Interp:
             else:
                 f = self.free("IS[" + ",".join(sorted([key(lv), key(rv)])) + "]", taint_of(lv) | taint_of(rv))
             return f if isinstance(op, ast.Is) else f_not(f)
+        if isinstance(op, (ast.In, ast.NotIn)) and isinstance(rv, Obj):
+            m = self.repo.lookup_method(rv.cls, "__contains__")
+            if m is not None and self.transparent_func(m):
+                f = self.truth(self.call_fn(fr, Fn(m, rv), [lv], {}, ast.copy_location(ast.Call(func=ast.Name(id="__contains__", ctx=ast.Load()), args=[], keywords=[]), re_)))
+                return f if isinstance(op, ast.In) else f_not(f)
+        if isinstance(op, (ast.In, ast.NotIn)) and isinstance(rv, AltV):
+            return disj(conj([g, self.compare1(fr, le, lv, op, re_, x)]) for g, x in self.live(rv))
         if isinstance(op, (ast.In, ast.NotIn)):
             if isinstance(rv, (Coll, TupleV)) or (isinstance(rv, Unknown) and hasattr(rv, "_coll")) or (isinstance(rv, Unknown) and "PARSED" in rv.taint):
                 f = self.member(lv, self.as_coll(rv))
@@ -1778,8 +1823,11 @@ class Interp:
             return DictV(f"{{dict@{e.lineno}}}", frozenset({"?"}))
         if isinstance(e, ast.Dict):
             d = DictV(f"{{dict@{e.lineno}}}")
-            for v in e.values:
-                d.taint |= self.value_taint(self.ev(fr, v))
+            for k_, v in zip(e.keys, e.values):
+                val = self.ev(fr, v)
+                d.taint |= self.value_taint(val)
+                if k_ is not None:
+                    d.entries.append((self.ev(fr, k_), val))
             return d
         if isinstance(e, ast.JoinedStr):
             t: frozenset = frozenset()
@@ -1817,6 +1865,10 @@ class Interp:
                 return Unknown(f"{key(v)}[..]")
             if isinstance(v, (DictV, DictCompV)):
                 sl = self.ev(fr, e.slice)
+                if isinstance(v, DictV):
+                    hit = self.dict_lookup(v, sl)
+                    if hit is not None:
+                        return hit
                 if isinstance(v, DictV) and root_elem(sl) is not None:
                     # a memo table: what was stored under this very key (by this or an earlier iteration of the same code)
                     for k_, val in reversed(v.stores):
@@ -1903,7 +1955,14 @@ class Interp:
         if isinstance(v, Obj):
             if attr in v.fields:
                 fv = v.fields[attr]
-                return self.mk_alt(self.live(fv)) if isinstance(fv, AltV) else fv
+                if isinstance(fv, AltV):
+                    # the alternatives that are possible here, joined the way a variable assigned in branches is
+                    alts = [(g, x) for g, x in self.live(fv) if not getattr(x, "_unset", False)] or self.live(fv)
+                    cur = alts[-1][1]
+                    for g, x in reversed(alts[:-1]):
+                        cur = self.join_ite(g, x, cur)
+                    return cur
+                return fv
             m = self.repo.lookup_method(v.cls, attr)
             if m is not None:
                 if m.is_property:
@@ -1941,7 +2000,10 @@ class Interp:
         """Class-level attributes are shared objects: evaluated once."""
         k = (c.fq, attr)
         if k not in self._class_attrs:
-            self._class_attrs[k] = self.ev(self.module_frame(next(iter(c.methods.values()), fr.fi)), c.class_attrs[attr])
+            if any(b.rsplit(".", 1)[-1] in ("Enum", "IntEnum", "StrEnum", "Flag", "IntFlag") for b in self.repo.external_bases(c)):
+                self._class_attrs[k] = Const(f"<{c.name}.{attr}>")  # an enum member: a constant distinct from all others
+            else:
+                self._class_attrs[k] = self.ev(self.module_frame(next(iter(c.methods.values()), fr.fi)), c.class_attrs[attr])
         return self._class_attrs[k]
 
     def ev_comp(self, fr: Frame, e: ast.expr) -> V:
@@ -2115,9 +2177,11 @@ class Interp:
 
     def collapse_predicate(self, fi: FuncInfo, f: Fn, args: list, kwargs: dict, res: V) -> V:
         """A pure boolean helper of an element's name whose result only compares strings is one atom `P<fn>[element]`."""
-        if not isinstance(res, BoolV) or fi.cls is not None and not fi.is_staticmethod:
+        if not isinstance(res, BoolV):
             return res
         if isinstance(fi.node, ast.Lambda) or fi.outer is not None:
+            return res
+        if fi.cls is not None and not fi.is_staticmethod and not isinstance(f.selfv, Obj):
             return res
         names = atoms_of(res.f)
         if not names:
@@ -2131,8 +2195,9 @@ class Interp:
         others = [a for a in [*args, *kwargs.values()] if a is not subj[0]]
         if any(taint_of(o) & {"FLAG", "EXT"} for o in others):
             return res
-        self.predicates[f"P<{fi.name}>"] = fi
-        return BoolV(atom(f"P<{fi.name}>[{key(subj[0])}]"))
+        name = fi.name if fi.cls is None else f"{fi.cls.name}.{fi.name}"
+        self.predicates[f"P<{name}>"] = fi
+        return BoolV(atom(f"P<{name}>[{key(subj[0])}]"))
 
     def construct(self, fr: Frame, ci: ClassInfo, args: list, kwargs: dict, e: ast.Call) -> V:
         if ci.name == SINK_CLASS or any(c.name == SINK_CLASS for c in self.repo.mro(ci)):
@@ -2142,6 +2207,10 @@ class Interp:
             return Opaque(ci.name, frozenset())
         if not self.transparent_class(ci):
             t = self._taints(args, kwargs)
+            first = args[0] if args else next(iter(kwargs.values()), None)
+            payload = first.payload if isinstance(first, Opaque) and first.payload is not None else first
+            if ci.name in ("Config", "FileFilter") or any(c.name == "FileFilter" for c in self.repo.mro(ci)):
+                return Opaque(ci.name, t, f"{ci.name}({','.join(key(a) for a in args)})", payload)
             colls = [a for a in [*args, *kwargs.values()] if isinstance(a, (Coll, AltV)) or (isinstance(a, Unknown) and a.taint & {"PARSED", "CONVERTED"})]
             if len(colls) >= 2 and not ci.module.name.startswith(SCAN_PKG):
                 self.other_sinks.append((ci, [self._freeze(a) for a in colls], self.guard(), fr.fi, e))
@@ -2263,6 +2332,26 @@ class Interp:
             return False  # a tuple of patterns / a truth value, not an instance of a repository class
         return None
 
+    def dict_lookup(self, d: DictV, k: V, default: "V | None" = None) -> "V | None":
+        """Value of a literal entry for the key (the very key object, an equal constant; alternatives of keys distribute).
+        `default`: what a missing key yields (`.get`) - only for a literal that is never written to and constant keys."""
+        if not d.entries:
+            return None
+        if isinstance(k, AltV):
+            res = []
+            for g, x in self.live(k):
+                hit = self.dict_lookup(d, x, default)
+                if hit is None:
+                    return None
+                res.append((g, hit))
+            return self.mk_alt(res)
+        for kk, val in d.entries:
+            if kk is k or (isinstance(kk, Const) and isinstance(k, Const) and kk.value == k.value):
+                return val
+        if default is not None and not d.stores and isinstance(k, Const) and all(isinstance(kk, Const) for kk, _ in d.entries):
+            return default
+        return None
+
     def builtin_reduce(self, fr: Frame, args: list, e: ast.Call) -> V:
         """reduce(f, xs, init) where f returns its accumulator extended: the initial collection plus what one generic step adds."""
         f, xs = args[0], args[1]
@@ -2339,6 +2428,14 @@ class Interp:
             return self.coll_method(fr, self.as_coll(recv), attr, args, kwargs, e)
         # ---- vocabulary objects
         if isinstance(recv, Opaque):
+            if attr in ("is_excluded", "has_filter") and recv.payload is not None:
+                empty = self.patterns_empty(recv.payload)
+                if empty == TRUE:
+                    return Const(False)  # a filter without patterns matches nothing
+                if empty != FALSE and isinstance(recv.payload, AltV):
+                    # built from alternatives (`() if patterns is None else patterns`): nothing matches in the empty ones
+                    res = self.call_method(fr, Opaque(recv.cls, recv.taint | {"EXT"}, recv.text), attr, args, kwargs, e)
+                    return BoolV(conj([f_not(empty), self.truth(res)]))
             if "EXT" in recv.taint:
                 if attr == "is_excluded" and args:
                     subject = args[0]
@@ -2379,6 +2476,10 @@ class Interp:
             if attr in ("items", "values", "keys") and not args:
                 return DictCompV(recv.node, recv.fr, recv.env, attr)
             return Unknown(f"{key(recv)}.{attr}(..)", t | recv.taint)
+        if isinstance(recv, DictV) and attr in ("get", "__getitem__") and args:
+            hit = self.dict_lookup(recv, args[0], (args[1] if len(args) > 1 else NoneV()) if attr == "get" else None)
+            if hit is not None:
+                return hit
         if isinstance(recv, DictV):
             if attr in ("setdefault", "update", "__setitem__"):
                 for a in [*args, *kwargs.values()]:
